@@ -25,6 +25,7 @@ import (
 	"os/exec"
 	"path"
 	"path/filepath"
+	"runtime"
 	"runtime/debug"
 	"sort"
 	"strings"
@@ -53,22 +54,22 @@ var fixedNow = time.Date(2024, 3, 4, 12, 0, 0, 0, time.UTC)
 
 // ---------------------------------------------------------------- call sites
 
-var sink int
+var sink atomic.Int64 // keeps the call of Inc from being the last instruction of a site
 
 //go:noinline
-func x03SiteA(sc *counter.StackCounter) { sc.Inc(); sink++ }
+func x03SiteA(sc *counter.StackCounter) { sc.Inc(); sink.Add(1) }
 
 //go:noinline
-func x03SiteB(sc *counter.StackCounter) { sc.Inc(); sink += 2 }
+func x03SiteB(sc *counter.StackCounter) { sc.Inc(); sink.Add(2) }
 
 //go:noinline
-func x03SiteC(sc *counter.StackCounter) { sc.Inc(); sink += 3 }
+func x03SiteC(sc *counter.StackCounter) { sc.Inc(); sink.Add(3) }
 
 //go:noinline
-func x03ViaP(leaf func(*counter.StackCounter), sc *counter.StackCounter) { leaf(sc); sink++ }
+func x03ViaP(leaf func(*counter.StackCounter), sc *counter.StackCounter) { leaf(sc); sink.Add(1) }
 
 //go:noinline
-func x03ViaQ(leaf func(*counter.StackCounter), sc *counter.StackCounter) { leaf(sc); sink += 2 }
+func x03ViaQ(leaf func(*counter.StackCounter), sc *counter.StackCounter) { leaf(sc); sink.Add(2) }
 
 var leaves = []func(*counter.StackCounter){x03SiteA, x03SiteB, x03SiteC}
 var vias = []func(func(*counter.StackCounter), *counter.StackCounter){x03ViaP, x03ViaQ}
@@ -167,7 +168,7 @@ func childMain() {
 	var steps []rt.M
 
 	observe := func(pan bool, msg string) rt.M {
-		o := rt.M{"pan": pan, "panmsg": msg, "dead": dead, "ga": -1, "gb": -1, "gaerr": "", "gberr": "", "s1": -1, "s2": -1,
+		o := rt.M{"pan": pan, "panmsg": msg, "dead": dead, "reads": true, "ga": -1, "gb": -1, "gaerr": "", "gberr": "", "s1": -1, "s2": -1,
 			"rserr": "", "rsalien": 0, "rfok": true, "rferr": ""}
 		if !dead {
 			p, m := protect(func() {
@@ -288,14 +289,22 @@ func childMain() {
 				fl := append([]string(nil), op.Fl...)
 				sort.Strings(fl)
 				for i, f := range fl {
-					fs.Set(f, "true")
+					val := "true"
+					if f == "y" {
+						val = "false" // set to its default value: still a flag that is set
+					}
+					fs.Set(f, val)
 					if i == 0 {
-						fs.Set(f, "true") // a flag given twice is still one flag that is set
+						fs.Set(f, val) // a flag given twice is still one flag that is set
 					}
 				}
 				counter.CountFlags(flagPrefix, *fs)
 			case "setcmd":
-				flag.CommandLine.Set("x03"+op.N, "true")
+				if op.N == "y" {
+					flag.CommandLine.Set("x03y", "false") // set to its default value: still a flag that is set
+				} else {
+					flag.CommandLine.Set("x03"+op.N, "true")
+				}
 			case "cmdflags":
 				counter.CountCommandLineFlags()
 			case "open":
@@ -417,6 +426,65 @@ func TestVerifX03Life(t *testing.T) {
 	}
 	close(ch)
 	wg.Wait()
+}
+
+// TestVerifX03Bin builds the real program cmd/x03flags from the scratch copy and
+// replays histories in it: flags given on its command line, then API calls.
+func TestVerifX03Bin(t *testing.T) {
+	defer rt.Flush()
+	var in struct {
+		Histories []struct {
+			ID   int      `json:"id"`
+			Mode string   `json:"mode"`
+			Args []string `json:"args"`
+			Ops  []lifeOp `json:"ops"`
+		} `json:"histories"`
+	}
+	if err := rt.In(&in); err != nil {
+		t.Skip(err)
+	}
+	base := t.TempDir()
+	exe := filepath.Join(base, "x03flags")
+	build := exec.Command("go", "build", "-tags", "verif", "-o", exe, "golang.org/x/telemetry/internal/verifh/x03/cmd/x03flags")
+	if out, err := build.CombinedOutput(); err != nil {
+		t.Fatalf("building cmd/x03flags: %v\n%s", err, out)
+	}
+	for _, h := range in.Histories {
+		dir := filepath.Join(base, fmt.Sprintf("b%d", h.ID))
+		os.MkdirAll(dir, 0777)
+		switch h.Mode {
+		case "on":
+			os.WriteFile(filepath.Join(dir, "mode"), []byte("on 2024-01-01"), 0666)
+		case "local":
+			os.WriteFile(filepath.Join(dir, "mode"), []byte("local"), 0666)
+		case "off":
+			os.WriteFile(filepath.Join(dir, "mode"), []byte("off"), 0666)
+		}
+		ops, _ := json.Marshal(h.Ops)
+		outPath := filepath.Join(base, fmt.Sprintf("b%d.json", h.ID))
+		cmd := exec.Command(exe, h.Args...)
+		cmd.Env = append(os.Environ(), "X03_DIR="+dir, "X03_OPS="+string(ops), "X03_OUT="+outPath, "GODEBUG=")
+		var stderr strings.Builder
+		cmd.Stderr = &stderr
+		err := cmd.Run()
+		rec := rt.M{"kind": "bin", "id": h.ID, "crashed": false}
+		data, rerr := os.ReadFile(outPath)
+		var out struct {
+			Steps     []rt.M `json:"steps"`
+			BuildPath string `json:"buildpath"`
+		}
+		if err != nil || rerr != nil || json.Unmarshal(data, &out) != nil {
+			rec["crashed"] = true
+			s := stderr.String()
+			if len(s) > 3000 {
+				s = s[:3000]
+			}
+			rec["stderr"] = s
+		} else {
+			rec["steps"], rec["buildpath"] = out.Steps, out.BuildPath
+		}
+		rt.Out(rec)
+	}
 }
 
 // ---------------------------------------------------------------- free runs
@@ -648,10 +716,34 @@ func TestVerifX03Free(t *testing.T) {
 							}
 							mu.Lock()
 							if len(snaps) < 400 {
-								snaps = append(snaps, rt.M{"ids": nz(ids), "lo": nz(lo), "hi": nz(hi)})
+								snaps = append(snaps, rt.M{"kind": "fsnap", "ids": nz(ids), "lo": nz(lo), "hi": nz(hi)})
 							}
 							mu.Unlock()
-							time.Sleep(time.Duration(10+o*7) * time.Microsecond)
+							// a concurrent read (G3): never more than has been begun
+							if cs := sc.Counters(); len(cs) > 0 && cs[n%len(cs)] != nil {
+								c := cs[n%len(cs)]
+								pcs, ctrs := sc.VStacks()
+								id := -2
+								for j := range ctrs {
+									if ctrs[j] == c {
+										id = keyOfPcs(run.Depth, run.NLeaf, run.NVia, pcs[j])
+									}
+								}
+								v, err := ic.Read(c)
+								if id > 0 {
+									h := begun[id].Load()
+									mu.Lock()
+									if len(snaps) < 400 {
+										snaps = append(snaps, rt.M{"kind": "fread", "id": id, "v": v, "hi": h, "err": errStr(err)})
+									}
+									mu.Unlock()
+								}
+							}
+							if n%4 == 3 {
+								time.Sleep(time.Duration(5+o*7) * time.Microsecond)
+							} else {
+								runtime.Gosched()
+							}
 						}
 					})
 				}()
@@ -799,7 +891,7 @@ func TestVerifX03Free(t *testing.T) {
 		}
 		rt.Out(fin)
 		for _, s := range snaps {
-			s["kind"], s["run"], s["fin"] = "fsnap", run.ID, stacks
+			s["run"], s["fin"] = run.ID, stacks
 			rt.Out(s)
 		}
 		vf.Close()
